@@ -240,6 +240,11 @@ func c06SignedBy(v jv, payload []byte, server string, keys []c06RKey, validAt fu
 	}
 	why := "absent"
 	for _, m := range ent.O {
+		if !strings.HasPrefix(m.Key, "ed25519:") {
+			// only ed25519 keys are supported: any other key ID does not count as a signature
+			why = "unsupported-algorithm"
+			continue
+		}
 		if m.Val.K != 's' {
 			why = "malformed-signature"
 			continue
@@ -756,7 +761,7 @@ func c06GenUserAway(t *rapid.T, label, server string) string {
 
 var c06Faults = []string{
 	"absent", "absent", "absent-empty-entry", "flip", "flip", "trunc", "nob64", "wrong-key", "wrong-key", "unknown-key",
-	"otherpayload", "unredacted", "expired-before-ts", "expired-before-ts", "stale-valid-until", "stale-valid-until", "no-valid-until",
+	"otherpayload", "unredacted", "unsupported-alg-only", "expired-before-ts", "expired-before-ts", "stale-valid-until", "stale-valid-until", "no-valid-until",
 }
 
 var c06KeyOKDeltas = []int64{0, 1, c06Second, c06Day, c06Year}
@@ -798,6 +803,11 @@ func c06PlanSigner(t *rapid.T, sigs []c06Sig, empty []string, keys []c06Key, ser
 	case "flip", "trunc", "nob64", "otherpayload", "unredacted":
 		sigs = append(sigs, c06Sig{Server: server, KeyID: kid, By: own, Mangle: fault})
 		keys = append(keys, okRow(kid, own))
+	case "unsupported-alg-only":
+		// a correct signature by the server's key, filed (and stored) under a key ID of another algorithm
+		akid := rapid.SampledFrom([]string{"rsa:", "ed25518:", "ED25519:", "curve25519:", ""}).Draw(t, "alg") + strings.TrimPrefix(kid, "ed25519:")
+		sigs = append(sigs, c06Sig{Server: server, KeyID: akid, By: own})
+		keys = append(keys, okRow(akid, own))
 	case "wrong-key":
 		sigs = append(sigs, c06Sig{Server: server, KeyID: kid, By: "c06evil:" + server})
 		keys = append(keys, okRow(kid, own))
